@@ -196,7 +196,12 @@ impl IntegrityProtectedPlaintext {
         self.security_target_contents = serde_cbor::to_vec(&payload_block.data()).unwrap();
 
         // create canonical form of other data
-        if !matches!(payload_block.data(), CanonicalData::Data(_)) {
+        // opaque block data (payload or unknown block type) already is the block-type-specific
+        // data; only typed extension data has to be wrapped into a byte string
+        if !matches!(
+            payload_block.data(),
+            CanonicalData::Data(_) | CanonicalData::Unknown(_)
+        ) {
             let temp_bytes = serde_bytes::Bytes::new(self.security_target_contents.as_slice());
             self.security_target_contents = serde_cbor::to_vec(&temp_bytes).unwrap();
         }
@@ -552,7 +557,7 @@ impl IntegrityBlock {
                 // | Id |Value|    | Id |Value|     | Id |Value|    | Id | Value|
                 // +----+-----+    +----+-----+     +----+-----+    +----+------+
 
-                self.security_results.push(vec![(ippt.0, result_value)]);
+                self.security_results.push(vec![(1, result_value)]);
             } else {
                 eprint!("Security Target and Ippt mismatch. Make sure there is an ippt for each target.")
             }
